@@ -35,8 +35,11 @@ NID_VARIANTS = [        # other "exactly one field differs" pairs, used by the t
     ('text', 'Subject-1'),
     # the field is absent in one of the two identifiers
     ('sp_name_qualifier', None), ('name_qualifier', None), ('format', None),
+    # two e-mail-format identifiers that differ in letter case only
+    ('email_case', None),
 ]
-ABSENT_VARIANTS = NID_VARIANTS[-3:]
+ABSENT_VARIANTS = NID_VARIANTS[-4:]
+EMAIL = 'urn:oasis:names:tc:SAML:1.1:nameid-format:emailAddress'
 SRC = {'i1': 'urn:verif:idp1', 'i2': 'urn:verif:idp2', 'i3': 'urn:verif:aa'}
 SRC_REV = dict((v, k) for k, v in SRC.items())
 
@@ -44,7 +47,10 @@ SRC_REV = dict((v, k) for k, v in SRC.items())
 def nid(name, variant=None):
     from saml2_tophat.saml import NameID
     f = dict(NID_FIELDS[name])
-    if variant is not None and name == 'n2':
+    if variant is not None and variant[0] == 'email_case':
+        if name in ('n1', 'n2'):
+            f = dict(NID_FIELDS['n1'], format=EMAIL, text='User.One@Example.org' if name == 'n1' else 'user.one@example.org')
+    elif variant is not None and name == 'n2':
         f = dict(NID_FIELDS['n1'])
         f[variant[0]] = variant[1]
     return NameID(**f)
